@@ -292,6 +292,31 @@ def ex_flat(rng):
     return ex
 
 
+def ex_long_history(rng, n, shape):
+    """one decoder used for a long time: n small data items of one shape (tagged values, pairs in short maps, short
+    arrays, indefinite strings), each skipped as a whole or popped, then the end of the data: whatever a decoder keeps
+    between calls must not add up"""
+    ents, starts = [], []
+    for i in range(n):
+        starts.append(len(ents))
+        if shape == "tag":
+            ents += [e_int("tag", rng.choice([0, 1, 2, 55799])), e_int("uint", i % 24)]
+        elif shape == "tagtag":
+            ents += [e_int("tag", 1), e_int("tag", 2), e_int("uint", i % 24)]
+        elif shape == "map":
+            ents += [e_int("map", 1), e_int("uint", i % 24), e_int("negint", 3)]
+        elif shape == "array":
+            ents += [e_int("array", 2), e_int("uint", 1), e_int("uint", i % 24)]
+        else:
+            ents += [e_simple("itext"), e_str("text", 65, 1, 2), e_simple("break")]
+    ex = ["RESET"] + lines(ents) + ["DATA", "DNEW 1"]
+    mode = rng.choice(["skip", "skip", "mixed"])
+    for i in range(n):
+        ex.append("SKIP 1")
+    ex += ["REM 1", "SKIP 1", "DFREE 1"]
+    return ex
+
+
 def ex_tree(rng, maxd):
     ents, endmap = [], {}
     budget = [rng.randint(6, 22)]
@@ -390,10 +415,14 @@ def ex_truncated(rng):
     """a container with fewer children than declared, skipped at the end of the data; encoder reset and reuse"""
     pre = [rand_leaf(rng) for _ in range(rng.randrange(3))]
     k = rng.choice(["array", "map", "iarray", "imap", "tag", "itext"])
+    huge = [2 ** 24, 2 ** 32, 2 ** 62, 2 ** 63 - 1, 2 ** 63, 2 ** 63 + 1, 2 ** 64 - 2, 2 ** 64 - 1]
     if k == "array":
-        body = [e_int("array", 3), rand_leaf(rng), rand_leaf(rng)]
+        # declared counts from "one more than present" to the largest the head can carry (the encoder writes any count)
+        have = rng.choice([0, 1, 2, 2, 3])
+        body = [e_int("array", rng.choice([have + 1, have + 1] + huge))] + [rand_leaf(rng) for _ in range(have)]
     elif k == "map":
-        body = [e_int("map", 2), rand_leaf(rng), rand_leaf(rng), rand_leaf(rng)]
+        have = rng.choice([0, 1, 2, 3, 4, 5])                 # items present (pairs may be cut in the middle)
+        body = [e_int("map", rng.choice([have // 2 + 1, have // 2 + 1] + huge))] + [rand_leaf(rng) for _ in range(have)]
     elif k == "tag":
         body = [e_int("tag", 5)]
     elif k == "itext":
@@ -507,6 +536,9 @@ def run(ctx):
         execs.append(ex_strings(rng, True))
     for _ in range(40 * mult):
         execs.append(ex_truncated(rng))
+    for shape, n in [("tag", 1100), ("tagtag", 600), ("map", 1100), ("array", 1100), ("itext", 1100)] + \
+            ([("tag", 4200), ("map", 2100), ("tagtag", 2100)] if thorough else []):
+        execs.append(ex_long_history(rng, n, shape))
     fam = growth_boundary_family(rng, [256] if not thorough else [256, 512, 1024])
     execs += fam
     ctx.extra["growth_boundary_family"] = len(fam)
